@@ -172,7 +172,7 @@ pub open spec fn stack_ok(g: St, ps: Seq<PathBuf>) -> bool {
     forall|i: int| 0 <= i < ps.len() ==> (#[trigger] ps[i]).abs_clean() && g.entries.contains_key(ps[i]@)
 }
 
-//@ item _clone_entries file=src/sys/fs/memfs/vfs.rs block="impl Memfs" fn=_clone_entries props=C12,C01,C11,C09,C08
+//@ item _clone_entries file=src/sys/fs/memfs/vfs.rs block="impl Memfs" fn=_clone_entries props=C12,C01,C11,C09,C08,C03
 //@ sig pub(crate) fn _clone_entries<T: AsRef<Path>>(&self, guard: &MemfsGuard, path: T) -> RvResult<MemfsEntries>
 // R2: the parameter `path` is renamed `path0` (the loop's `while let Some(path)` binding shadows it; Verus cannot name a shadowed parameter in an invariant)
 //@ rw R11 1 ⟦self._abs(guard, path)?⟧ => ⟦_abs(guard, path0)?⟧
